@@ -35,6 +35,8 @@ const (
 	ModeGarbage       = "garbage"        // 200, not JSON
 	ModeWrongType     = "wrong_type"     // 200, success, resultType string
 	ModeOKBadData     = "ok_bad_data"    // 200 whose JSON body says status=error, errorType=bad_data
+	ModeJSONCanceled  = "json_canceled"  // 499 + errorType canceled: the server gave the query up (shutdown, a frontend's own deadline)
+	ModeTruncClean    = "trunc_clean"    // 200 without a length, closed right after `"result":[` - the reader sees a clean end of stream
 	ModeReset         = "reset"          // connection closed without a response
 	ModeRefused       = "refused"        // dial level (never reaches the handler)
 	ModeDialBlackHole = "dial_blackhole" // dial level
@@ -255,6 +257,9 @@ func (srv *Server) ServeHTTP(w http.ResponseWriter, r *http.Request) {
 	case ModeJSONTimeout:
 		srv.finish(req, f.Mode, 0)
 		writeJSONErr(w, 503, "timeout", "injected query timeout")
+	case ModeJSONCanceled:
+		srv.finish(req, f.Mode, 0)
+		writeJSONErr(w, 499, "canceled", "query was canceled in expression evaluation")
 	case ModeBadData:
 		srv.finish(req, f.Mode, 0)
 		writeJSONErr(w, 400, "bad_data", "injected bad_data: parse error")
@@ -279,7 +284,7 @@ func (srv *Server) ServeHTTP(w http.ResponseWriter, r *http.Request) {
 		w.Header().Set("Content-Type", "application/json")
 		w.WriteHeader(200)
 		_, _ = w.Write([]byte(`{"status":"success","data":{"resultType":"string","result":[0,"x"]}}`))
-	case ModeTruncated, ModeReset:
+	case ModeTruncated, ModeReset, ModeTruncClean:
 		srv.finish(req, f.Mode, 0)
 		hj, ok := w.(http.Hijacker)
 		if !ok {
@@ -288,6 +293,13 @@ func (srv *Server) ServeHTTP(w http.ResponseWriter, r *http.Request) {
 		conn, _, err := hj.Hijack()
 		if err != nil {
 			return
+		}
+		if f.Mode == ModeTruncClean {
+			typ := "vector"
+			if req.Endpoint == "/api/v1/query_range" {
+				typ = "matrix"
+			}
+			_, _ = conn.Write([]byte("HTTP/1.1 200 OK\r\nContent-Type: application/json\r\nConnection: close\r\n\r\n{\"status\":\"success\",\"data\":{\"resultType\":\"" + typ + "\",\"result\":["))
 		}
 		if f.Mode == ModeTruncated {
 			_, _ = conn.Write([]byte("HTTP/1.1 200 OK\r\nContent-Type: application/json\r\nContent-Length: 4096\r\nConnection: close\r\n\r\n{\"status\":\"success\",\"data\":{\"resultType\":\"matr"))
